@@ -4,6 +4,7 @@
    Part 2: the shared filter Executor::hasToLog under every arrival order. *)
 From CV Require Import Base.Bytes Base.Glob Supp.Defs Par.Gen_Severity Par.Defs Par.DecProofs
                        Par.CodecProofs Par.MergeProofs.
+From CV Require Import Par.SupprWire Par.SupprWireProofs.
 From CV Require Supp.ExecDefs Supp.ExecProofs Supp.ThreadProofs Par.EqSingle Par.EqProcess Par.EqWitness.
 Require Import Permutation.
 
@@ -123,6 +124,31 @@ Theorem C15_update_state_order_independent us us' :
   Permutation us us' -> forall l, fold_left update_state us l = fold_left update_state us' l.
 Proof. exact (update_state_order_independent us us'). Qed.
 Print Assumptions C15_update_state_order_independent.
+
+(* the suppression-state records worker -> parent (REPORT_SUPPR / REPORT_SUPPR_INLINE):
+   toString();column;checked;matched;comment read back by splitString / parseLine *)
+Theorem C15_suppr_wire_roundtrip simp w : ws_ok simp w = true -> suppr_of_wire simp (suppr_to_wire w) = Ok w.
+Proof. exact (suppr_wire_roundtrip simp w). Qed.
+Print Assumptions C15_suppr_wire_roundtrip.
+
+(* the record does not carry hash / thisAndNextLine (nor type, block range, macro name): two
+   entries that the list keeps apart have the same record *)
+Theorem C15_suppr_wire_loses_fields_refuted :
+  exists a b, suppr_to_wire (ws_of_supp a) = suppr_to_wire (ws_of_supp b)
+              /\ Par.Defs.same_params a b = false /\ ws_ok (fun x => x) (ws_of_supp a) = true.
+Proof. exact suppr_wire_loses_fields_refuted. Qed.
+Print Assumptions C15_suppr_wire_loses_fields_refuted.
+
+(* ws_ok's colon/dot condition is necessary: file "dir:1" without a line comes back as file "dir", line 1 *)
+Theorem C15_suppr_wire_colon_refuted :
+  exists w w', ws_ok (fun x => x) w = false /\ suppr_of_wire (fun x => x) (suppr_to_wire w) = Ok w' /\ w' <> w
+               /\ ws_file w' = [100;105;114]%N /\ ws_line w' = 1%Z.
+Proof. exact suppr_wire_colon_refuted. Qed.
+Print Assumptions C15_suppr_wire_colon_refuted.
+
+Example C15_ws_ok_inhabited :
+  ws_ok (fun x => x) (mkWS [120] [97;46;99] 3 [102] true 7 true false [97;59;98])%N = true.
+Proof. exact ws_ok_inhabited. Qed.
 
 (* ------------------------------------------------------------------ *)
 (* parallel_eq_single, on C24's whole-run model (Supp/ExecDefs.v whole_run: per-file
